@@ -116,7 +116,10 @@ class BaseScorer(object):
         score.
         """
 
-        raise NotImplementedError(self.__class__.__name__)
+        # A scorer that does not override this knows no bound. Matchers ask
+        # for the bound (e.g. in replace()) whether or not the scorer
+        # supports block quality, so "no bound" must be a value
+        return float("inf")
 
     def block_quality(self, matcher):
         """Returns the *maximum limit* on the possible score the matcher can
@@ -130,7 +133,7 @@ class BaseScorer(object):
         skip ahead to another block with better "quality".
         """
 
-        raise NotImplementedError(self.__class__.__name__)
+        return float("inf")
 
 
 # Scorer that just returns term weight
